@@ -136,7 +136,9 @@ SliceDecl == UNION {{Shape("post", ks, "ok", "kc", "none", "x-api-key", "content
 SliceGet == {Shape(st, ks, cs, "kc", ex, "X-API-Key", "Content-Length", bl, bn, -1) :
                  st \in {"get", "getq", "getq0"}, ks \in KeySpecs, cs \in {"absent", "ok", "alpha"}, ex \in {"none", "host"},
                  bl \in {0, 1}, bn \in {"none", "up"}}
-AllShapes == SliceStart \cup SliceHdr \cup SliceName \cup SliceBody \cup SliceDecl \cup SliceGet
+(* the heart of the property, exported whatever the sampling: every key variant on a plain POST and a plain GET *)
+CoreShapes == {Std("post", ks, "ok", "up") : ks \in KeySpecs} \cup {Shape("get", ks, "absent", "ck", "none", "X-API-Key", "Content-Length", 1, "none", -1) : ks \in KeySpecs}
+AllShapes == CoreShapes \cup SliceStart \cup SliceHdr \cup SliceName \cup SliceBody \cup SliceDecl \cup SliceGet
 (* the small model for exhaustive checking of the machine *)
 SmallShapes == {Std(st, ks, cs, bn) : st \in {"get", "getq", "post", "getx", "junk", "empty"},
                                       ks \in {"absent", "exact", "prefix", "dupEW", "elsewhere"},
